@@ -46,6 +46,14 @@ pub enum Step {
     /// that attachment is still open (nothing happens when the remote has no open attachment). The remote's
     /// later steps use the new channels; the reader of the old ones keeps draining.
     AttachDup(usize),
+    /// As `Reattach` (the connection attaches again under its id if the runtime removed it for inactivity), but the
+    /// reading half of the old attachment stays as it is - stalled, with a write of the runtime to it possibly
+    /// still under way - until `ResumeOld` / `DropOld`.
+    ReattachOver(usize),
+    /// The kept reader of the remote's previous attachment reads again.
+    ResumeOld(usize),
+    /// The kept reader of the remote's previous attachment is dropped.
+    DropOld(usize),
     /// Attach command-only channel `k` (`AgentAttachmentRequest::commander`), with its own routing id.
     AttachOneWay(usize),
     /// An envelope written to command-only channel `k` (a command, or - hostile - link / sync / unlink).
@@ -68,6 +76,9 @@ pub struct Themes {
     pub corrupt: bool,
     /// Map events whose key is not valid UTF-8.
     pub badkey: bool,
+    /// Directed: a remote without links is removed for inactivity while a write to its stalled reader is under
+    /// way, attaches again under its id, and only then the old reader resumes or is dropped.
+    pub stale: bool,
 }
 
 #[derive(Clone, Debug)]
@@ -199,7 +210,7 @@ impl<'a> Gen<'a> {
         // (the existing focuses draw nothing here: their cases are what they were before the extension)
         let themes = match focus {
             Focus::Attach => {
-                let mut t = Themes { dup: self.rng.bool(), oneway: self.rng.bool(), corrupt: self.rng.bool(), badkey: self.rng.bool() };
+                let mut t = Themes { dup: self.rng.bool(), oneway: self.rng.bool(), corrupt: self.rng.bool(), badkey: self.rng.bool(), stale: false };
                 if t == Themes::default() {
                     match self.rng.below(4) {
                         0 => t.dup = true,
@@ -216,6 +227,12 @@ impl<'a> Gen<'a> {
                     } else {
                         t.badkey = false;
                     }
+                }
+                // (the same holds for the writer of an attachment that was removed while it was lent out)
+                if self.rng.chance(1, 3) {
+                    t.stale = true;
+                    t.dup = false;
+                    t.badkey = false;
                 }
                 t
             }
@@ -383,6 +400,15 @@ impl<'a> Gen<'a> {
             _ => None,
         };
         let inactivity = matches!(focus, Focus::Inactivity | Focus::InactivityOneWay);
+        // the directed prune-with-a-write-under-way history needs a prune delay and channels smaller than a frame
+        let prune_ms = if themes.stale { Some(prune_ms.unwrap_or(*self.rng.pick(&[3u64, 10]))) } else { prune_ms };
+        if themes.stale {
+            for c in cap_out.iter_mut().take(remotes) {
+                if *c > 16 {
+                    *c = *self.rng.pick(&CAPS[..5]);
+                }
+            }
+        }
         Config {
             lanes,
             remotes,
@@ -561,8 +587,8 @@ impl<'a> Gen<'a> {
             Focus::InactivityOneWay => [90, 60, 70, 0, 20, 25, 150, 15, 30, 0, 160, 0, 0],
             _ => [110, 90, 70, 50, 25, 70, 150, 30, 5, 10, 30, 3, 3],
         };
-        // (overlapping attachment, command-only channel, corrupt request frame, non-UTF-8 key)
-        let tw: [u64; 4] = [
+        // (overlapping attachment, command-only channel, corrupt request frame, non-UTF-8 key, removed with a write under way)
+        let tw: [u64; 5] = [
             if th.dup { 45 } else { 0 },
             if !th.oneway || cfg.oneway == 0 {
                 0
@@ -581,6 +607,7 @@ impl<'a> Gen<'a> {
             } else {
                 50
             },
+            if th.stale && cfg.prune_ms.is_some() { 55 } else { 0 },
         ];
         for _ in 0..len {
             let r = self.rng.usize_below(n);
@@ -600,7 +627,8 @@ impl<'a> Gen<'a> {
             let roll = self.rng.below(1000);
             let mut acc = 0;
             let mut pick = usize::MAX;
-            for (i, wi) in tw.iter().chain(w.iter()).enumerate() {
+            // (the fifth theme is arm 100 so that the arms of the ordinary steps keep their numbers)
+            for (i, wi) in tw.iter().enumerate().map(|(i, w)| (if i == 4 { 100 } else { i }, w)).chain(w.iter().enumerate().map(|(i, w)| (4 + i, w))) {
                 acc += wi;
                 if roll < acc {
                     pick = i;
@@ -694,6 +722,59 @@ impl<'a> Gen<'a> {
                             let op = self.map_op(cfg, src);
                             steps.push(Step::Lane(l, LaneCtl::Map(op)));
                         }
+                    }
+                }
+                100 => {
+                    if !corrupt[r] {
+                        let prune = cfg.prune_ms.unwrap_or(3);
+                        // nothing under way, then the reader stops
+                        steps.push(Step::Quiesce);
+                        steps.push(Step::Stall(r));
+                        // requests whose answers (linked, lane-not-found, unlinked) cannot be written out: the first
+                        // stays in flight in a channel smaller than a frame, the others queue up behind it
+                        for i in 0..self.rng.range(1, 3) {
+                            match if i == 0 { self.rng.below(2) } else { self.rng.below(3) } {
+                                0 => steps.push(Step::Link(r, self.rng.pick(&UNKNOWN_LANES).to_string())),
+                                1 => {
+                                    let l = self.rng.usize_below(cfg.lanes.len());
+                                    steps.push(Step::Link(r, cfg.lanes[l].name.clone()));
+                                }
+                                _ => steps.push(self.remote_command(cfg, r, focus)),
+                            }
+                        }
+                        // no link is left
+                        for l in 0..cfg.lanes.len() {
+                            steps.push(Step::Unlink(r, cfg.lanes[l].name.clone()));
+                        }
+                        steps.push(Step::Run(12));
+                        // the prune delay passes: the remote is removed with that write still pending
+                        steps.push(Step::Advance(prune + *self.rng.pick(&[1, 2, prune])));
+                        steps.push(Step::Quiesce);
+                        steps.push(Step::ReattachOver(r));
+                        // the new attachment speaks
+                        match self.rng.below(3) {
+                            0 => steps.push(Step::Link(r, self.lane_name(cfg, focus))),
+                            1 => steps.push(Step::Sync(r, self.lane_name(cfg, focus))),
+                            _ => {
+                                steps.push(Step::Link(r, self.lane_name(cfg, focus)));
+                                let l = self.focus_lane(cfg, focus);
+                                steps.push(self.lane_change(cfg, l, focus));
+                            }
+                        }
+                        steps.push(match self.rng.below(3) {
+                            0 => Step::Run(3),
+                            1 => Step::Run(12),
+                            _ => Step::Quiesce,
+                        });
+                        // only now the old reader goes on, or goes away
+                        steps.push(if self.rng.bool() { Step::ResumeOld(r) } else { Step::DropOld(r) });
+                        steps.push(Step::Quiesce);
+                        let l = self.focus_lane(cfg, focus);
+                        steps.push(self.lane_change(cfg, l, focus));
+                        if self.rng.bool() {
+                            steps.push(Step::Sync(r, self.lane_name(cfg, focus)));
+                        }
+                        steps.push(Step::Settle);
                     }
                 }
                 4 => steps.push(Step::Link(r, self.lane_name(cfg, focus))),
